@@ -27,6 +27,9 @@ type PlanC17 struct {
 	// NCmd[i]: client i also runs that many request/response exchanges (ProcessCommand) with
 	// command ids that every client uses alike ("q0", "q1", ...): ids only mean something per session
 	NCmd []int `json:"n_cmd,omitempty"`
+	// NPing[i]: in-process client i pings that many times (the server is then built with
+	// AutoReplyPings; over the other transports the stock ping reply does not decode, see C11)
+	NPing []int `json:"n_ping,omitempty"`
 }
 
 func genC17(t *simrt.Tape, tier string) interface{} {
@@ -47,6 +50,7 @@ func genC17(t *simrt.Tape, tier string) interface{} {
 		}
 		p.Abort = append(p.Abort, ab)
 		p.NCmd = append(p.NCmd, []int{0, 0, 1, 3}[t.Draw(4)])
+		p.NPing = append(p.NPing, []int{0, 0, 2, 4}[t.Draw(4)])
 	}
 	for i := t.Draw(3); i > 0; i-- {
 		p.SrvDelay = append(p.SrvDelay, []int{0, 1, 20}[t.Draw(3)])
@@ -74,6 +78,17 @@ func runC17(w *World, pi interface{}) {
 	}
 	var hrecs []hrec
 	nSrv := 0
+	for i, n := range p.NPing {
+		if n > 0 && i < len(p.Clients) && p.Clients[i].L >= 0 && p.Clients[i].L < len(p.Conf.Listeners) && p.Conf.Listeners[p.Clients[i].L] == "inproc" {
+			p.Conf.AutoPing = true
+		}
+	}
+	type pong struct {
+		who  int
+		want string
+		resp *lime.ResponseCommand
+	}
+	var pongs []pong
 	f, err := StartFull(w, p.Conf, 8300, nil)
 	if err != nil {
 		return
@@ -238,6 +253,23 @@ func runC17(w *World, pi interface{}) {
 					}
 				}
 			}
+			if i < len(p.NPing) && p.Conf.AutoPing && p.Conf.Listeners[spec.L] == "inproc" {
+				for j := 0; j < p.NPing[i]; j++ {
+					cmd := &lime.RequestCommand{}
+					cmd.ID = fmt.Sprintf("ping%d.%d", i, j)
+					cmd.Method = lime.CommandMethodGet
+					cmd.SetURIString("/ping")
+					pctx, pcancel := context.WithTimeout(context.Background(), 30*time.Second)
+					resp, err := ch.ProcessCommand(pctx, cmd)
+					pcancel()
+					if err == nil && resp != nil {
+						// kept: what one session was handed must not change when another session pings
+						pongs = append(pongs, pong{i, cmd.ID, resp})
+					} else {
+						w.Count("ping-failed")
+					}
+				}
+			}
 			// wait for the replies
 			w.Eventually(time.Minute, func() bool { return len(c.got) >= len(c.sent) })
 		}()
@@ -298,6 +330,11 @@ func runC17(w *World, pi interface{}) {
 			w.Violate("C17.reply-did-not-reach-originator", sig("reply"), "client %d sent %v and received only %v through the handler's sender", i, c.sent, c.got)
 		}
 	}
+	for _, pg := range pongs {
+		if pg.resp.ID != pg.want {
+			w.Violate("C17.reply-crossed-sessions", "ping", "the reply client %d was handed for its ping %q now carries id %q: the envelope is shared with another session's reply", pg.who, pg.want, pg.resp.ID)
+		}
+	}
 	for _, c := range cs {
 		if c.ch != nil {
 			c.ch.Close()
@@ -312,7 +349,7 @@ func init() {
 		Gen:    genC17,
 		Run:    runC17,
 		MaxSim: 2 * time.Hour,
-		Rule: "plans = (one server with 1-3 listeners of mixed kinds, 2-6 concurrent real clients over mixed transports with start offsets and per-write latency, registration assigning derived or colliding-looking addresses, 1-6 tagged messages per client, clients that reset their connection after their k-th message, request/response exchanges with command ids shared by all clients, " +
+		Rule: "plans = (one server with 1-3 listeners of mixed kinds, 2-6 concurrent real clients over mixed transports with start offsets and per-write latency, registration assigning derived or colliding-looking addresses, 1-6 tagged messages per client, clients that reset their connection after their k-th message, request/response exchanges with command ids shared by all clients, pings of in-process clients against AutoReplyPings, " +
 			"handler delays; every handler records ContextSessionID/RemoteNode/LocalNode and replies through the Sender it was handed); oracle: context values equal those of the session the envelope was sent on, replies reach the originator and nobody else, " +
 			"announced ids pairwise distinct and known to the server; non-trivial = server started; distinct = distinct (plan JSON, event-log hash)",
 	})
